@@ -391,7 +391,7 @@ Proof. unfold used_nums. cbn [length]. rewrite map_length. reflexivity. Qed.
 Lemma prev_num_bound bl : 2 <= prev_num bl <= 3 + N.of_nat (length bl).
 Proof.
   unfold prev_num. pose proof (alloc_spec 1 (used_nums (remove_all is_prev bl))) as [_ H].
-  rewrite used_nums_length in H. unfold remove_all in H.
+  rewrite used_nums_length in H. unfold remove_all in *.
   pose proof (filter_len_le (fun x => negb (is_prev x)) bl). lia.
 Qed.
 
